@@ -8,6 +8,7 @@
 package c02
 
 import (
+	"fmt"
 	"testing"
 
 	"verif/pager"
@@ -288,6 +289,7 @@ func TestCheck(t *testing.T) {
 	// page is page 16385; transactions grow across it, write the page after it, shrink back to just before it and
 	// across it, and roll back a growth across it.
 	nLock := 0
+	fourGiBSkipped := ""
 	if run.Thorough() {
 		r := func(tx pager.RTx) prog.Op { t := tx; return prog.Op{Kind: "rtx", R: &t} }
 		lockProgs := [][]prog.Op{
@@ -295,23 +297,36 @@ func TestCheck(t *testing.T) {
 			{r(pager.RTx{NewSize: 16386, Final: "PERSIST", Outcome: "commit"}), r(pager.RTx{NewSize: 16380, Mods: []uint32{3}, Final: "DELETE", Outcome: "commit"})},
 			{r(pager.RTx{NewSize: 16388, Mods: []uint32{2, 16383}, SpillAfter: []int{1}, Final: "DELETE", Outcome: "rollback"}), r(pager.RTx{NewSize: 16384, Final: "DELETE", Outcome: "commit"}), r(pager.RTx{NewSize: 16386, Final: "DELETE", Outcome: "commit"})},
 		}
+		// growth across the lock page by pages that are never written (free-list leaves): the page before the lock page,
+		// the page after it, two pages after it
+		lockProgs = append(lockProgs,
+			[]prog.Op{r(pager.RTx{NewSize: 16387, Mods: []uint32{2}, FreeLeaves: true, Final: "DELETE", Outcome: "commit"}), r(pager.RTx{Mods: []uint32{16386}, Final: "DELETE", Outcome: "commit"}), {Kind: "restart"}},
+			[]prog.Op{r(pager.RTx{NewSize: 16386, FreeLeaves: true, Final: "TRUNCATE", Outcome: "commit"}), r(pager.RTx{Mods: []uint32{16384}, Final: "DELETE", Outcome: "commit"})},
+			[]prog.Op{r(pager.RTx{NewSize: 16389, Mods: []uint32{3}, FreeLeaves: true, Final: "PERSIST", Outcome: "commit"}), {Kind: "restart"}, r(pager.RTx{Mods: []uint32{16387}, Final: "DELETE", Outcome: "commit"})},
+		)
 		for _, ops := range lockProgs {
 			cases = append(cases, prog.Case{PageSize: 65536, Start: 16383, Ops: ops})
 			nLock++
 		}
 		// One database just over 4 GiB (65537 pages of 64 KiB): grow, shrink back (byte offsets beyond 32 bits in the
 		// truncate), write the last page. About four minutes and 20 GB of memory on its own.
-		cases = append(cases, prog.Case{PageSize: 65536, Start: 65537, Ops: []prog.Op{
-			r(pager.RTx{NewSize: 65539, Mods: []uint32{2}, Final: "DELETE", Outcome: "commit"}),
-			r(pager.RTx{NewSize: 65537, Final: "DELETE", Outcome: "commit"}),
-			r(pager.RTx{Mods: []uint32{65537}, Final: "DELETE", Outcome: "commit"})}})
-		nLock++
+		if avail := vlib.MemAvailableGiB(); avail >= 30 {
+			cases = append(cases, prog.Case{PageSize: 65536, Start: 65537, Ops: []prog.Op{
+				r(pager.RTx{NewSize: 65539, Mods: []uint32{2}, Final: "DELETE", Outcome: "commit"}),
+				r(pager.RTx{NewSize: 65537, Final: "DELETE", Outcome: "commit"}),
+				r(pager.RTx{Mods: []uint32{65537}, Final: "DELETE", Outcome: "commit"})}})
+			nLock++
+		} else {
+			fourGiBSkipped = fmt.Sprintf("not run: it needs about 20 GiB of memory-backed scratch and %d GiB are available", avail)
+			fmt.Println("NOTE: C02 thorough: the 4 GiB database program was " + fourGiBSkipped)
+		}
 	}
 
 	var st prog.Stats
 	prog.RunAll(run, "C02", cases, &st)
 
 	cov := map[string]any{
+		"four_gib_program":              map[bool]string{true: "run (thorough) / not part of the quick tier", false: fourGiBSkipped}[fourGiBSkipped == ""],
 		"states":                        st.Cases, // one terminal state per program; every intermediate state is checked too
 		"transitions":                   st.Steps,
 		"traces_validated_against_impl": st.Cases,
